@@ -21,22 +21,12 @@ func (s *Store) snapshotPrevious(ss Snapshot) (Snapshot, error) {
 	footer.segmentLocs()
 	defer footer.DecRef()
 
-	// The segments might all belong to child collections.
-	mref := footer.mmapRefAny()
-	if mref == nil {
-		return nil, nil
-	}
-
-	mref.m.Lock()
-	if mref.refs <= 0 {
-		mref.m.Unlock()
-		return nil, fmt.Errorf("footer mmap has 0 refs")
-	}
-	fref := mref.fref
-	mref.m.Unlock() // Safe since the file beneath the mmap cannot change.
+	// Not through the segments: they might all belong to child
+	// collections, or there might be none at all.
+	fref := footer.fileRef()
 
 	if fref == nil {
-		return nil, fmt.Errorf("footer fref nil")
+		return nil, nil // Never persisted, so no previous snapshot.
 	}
 
 	fref.m.Lock()
